@@ -703,6 +703,17 @@ func (fr *Frame) setEdge(from, to *ssa.BasicBlock, cond string, st *State) {
 // loopWrites computes the heaps that may be written in the loop body; all=true when unknown.
 func (fr *Frame) loopWrites(li *loopInfo) (names map[string]bool, all bool) {
 	names = map[string]bool{}
+	// ghost variables with anchored updates in this contract: conservatively written by every loop of the function
+	// (the anchor may match an instruction of the body); without this the invariant would be assumed over the entry value
+	if fr.fc != nil && fr.depth == 0 {
+		for _, gh := range fr.fc.Ghosts {
+			if gv, ok := fr.g.P.db.GhostVars[gh.Var]; ok {
+				env := fr.envAt(fr.entry, nil, 0)
+				env.ghostVal(gv)
+				names["Ghost:"+gv.Name] = true
+			}
+		}
+	}
 	for idx := range li.body {
 		for _, in := range fr.fn.Blocks[idx].Instrs {
 			ws, a := fr.g.instrWrites(fr, in, 0)
@@ -756,6 +767,17 @@ func (fr *Frame) enterLoop(li *loopInfo, b *ssa.BasicBlock, reach string, st *St
 	hs := st.clone()
 	if all {
 		g.havocAll(hs)
+		// kept heaps (ghosts, locals) that the body writes explicitly must still be havocked
+		var ks []string
+		for k := range names {
+			if g.keepHeap(k) {
+				ks = append(ks, k)
+			}
+		}
+		sort.Strings(ks)
+		for _, k := range ks {
+			hs.h[k] = g.fresh("loop"+li.key+"."+k, g.heapSort(k))
+		}
 	} else {
 		var ks []string
 		for k := range names {
@@ -894,6 +916,9 @@ func (g *Gen) VerifyFunction(fn *ssa.Function, fc *FuncContract) error {
 	for _, fv := range fn.FreeVars {
 		v := Val{T: g.fresh("fv."+fv.Name(), g.sorts.SortOf(fv.Type())), Go: fv.Type(), Sort: g.sorts.SortOf(fv.Type())}
 		g.typeFacts(v, st)
+		if _, isPtr := fv.Type().Underlying().(*types.Pointer); isPtr {
+			g.assume(app(">", v.T, "0")) // the address of a captured variable is never nil
+		}
 		fr.vals[fv] = v
 	}
 	entryEnv := fr.envAt(st, fn.Blocks[0], 0)
